@@ -11,7 +11,7 @@ ST = I + "stamper::Stamper::"
 
 
 def run(rep, prog, tier):
-    rep.rule("C02-R1", "atomic opstamps: Stamper::stamp / stamps obtain their value from exactly one AtomicU64::fetch_add (no load, no non-atomic counter); the only store is in Stamper::revert, which only delete_all_documents calls")
+    rep.rule("C02-R1", "atomic opstamps: Stamper::stamp / stamps obtain their value from exactly one AtomicU64::fetch_add (no load, no non-atomic counter); nothing stores into the counter (opstamps are monotone: a rewind lets older deletes of the queue remove newer documents)")
     rep.rule("C02-R2", "join before commit: prepare_commit closes the document channel, then joins every worker and propagates both error layers before stamping the commit (shared with C11-R3)")
     rep.rule("C02-R3", "commit task dataflow: the entries returned by purge_deletes(opstamp) are what SegmentManager::commit installs (under one write guard), save_metas receives the same opstamp and the task returns it")
     rep.rule("C02-R4", "batch unit: IndexWriter::run draws all opstamps of a batch with one Stamper::stamps call and sends all adds as one batch; add_document / delete_query return the opstamp they stamped the operation with")
@@ -25,8 +25,38 @@ def run(rep, prog, tier):
     rep.rule("C02-R7", "the merged segment resumes the delete queue where its sources stand AFTER they were advanced: in segment_updater::merge the delete cursor given to the new SegmentEntry is read only after the loop over advance_deletes has completed (shared with C04-R1); a cursor cloned before the loop makes the next commit re-apply, without the per-document opstamp test, deletes that are older than documents of the merged segment")
     from .c04 import merged_cursor
     merged_cursor(rep, prog, "C02-R7")
+    r8(rep, prog)
     rep.rule("C02-R6", "an accepted batch is indexed completely: in index_documents the loop over one document group (the adds of one IndexWriter::run batch, already stamped and acknowledged) is left only when its iterator is exhausted or with an error; a `break` out of it on an Ok path drops acknowledged adds")
     rule_loop_exhausted(rep, prog, "C02-R6", I + "index_writer::index_documents", {I + "segment_writer::SegmentWriter::add_document"}, "the documents of one group")
+
+
+def r8(rep, prog):
+    """the writer's own record of the last commit follows the commits"""
+    R = "C02-R8"
+    rep.rule(R, "the writer reports the last commit: IndexWriter::commit_opstamp() returns the field committed_opstamp ('the opstamp of the last successful commit'), which delete_all_documents also uses to rewind the stamper; so some function on the commit path (IndexWriter::commit, PreparedCommit::commit / commit_future and what they reach) stores into that field. A field that is only written by IndexWriter::new keeps reporting the commit that was current when the writer was opened")
+    OWNER = "tantivy::indexer::index_writer::IndexWriter"
+    writers = set()
+    for fid, b in prog.bodies.items():
+        if "::tests::" in fid:
+            continue
+        for bi in b.normal_blocks():
+            for st in b.stmts(bi):
+                d = st["d"]
+                if not is_bare(d):
+                    fs = proj_fields(d)
+                    if fs and fs[-1][1] == "committed_opstamp" and fs[-1][2].startswith(OWNER):
+                        writers.add(fid)
+                if st.get("r") == "agg" and (st.get("adt") or "") == OWNER:
+                    writers.add(fid + " (constructor)")
+    entries = [n for n in prog.bodies if n in (IW + "commit", "tantivy::indexer::prepared_commit::PreparedCommit::<'a, D>::commit",
+                                                "tantivy::indexer::prepared_commit::PreparedCommit::<'a, D>::commit_future")]
+    if not rep.check(len(entries) >= 2, R, "commit entry points", "%s" % [short(e) for e in entries], "cannot establish: commit entry points not found (%d)" % len(entries)):
+        return
+    reach = prog.reachable_bodies(entries, scope=lambda y: y.startswith(("tantivy::indexer::", "<tantivy::indexer::")))
+    on_commit = sorted(w for w in writers if w in reach)
+    rep.check(bool(on_commit), R, "IndexWriter::committed_opstamp is updated on the commit path", "written by %s" % [short(w) for w in on_commit],
+              "the field IndexWriter::committed_opstamp is written only by %s and by nothing that commit reaches: after any number of successful commits `commit_opstamp()` still reports the commit that was "
+              "current when the writer was created, and delete_all_documents() rewinds the opstamp generator to that stale value" % sorted(short(w) for w in writers), site=prog.bodies[entries[0]].span)
 
 
 def r1(rep, prog):
@@ -54,9 +84,11 @@ def r1(rep, prog):
         rep.check("Atomic" in ft, R, "the stamper's counter is atomic", ft, "Stamper's counter is not an atomic (%s)" % ft, site=adt["span"])
     # stores on an AtomicU64 inside the stamper module
     stores = [(b, bi, t) for (b, bi, t) in prog.who_calls(STORE) if b.span.startswith("src/indexer/stamper.rs")]
-    rep.check(sorted({b.id for b, _, _ in stores}) == [ST + "revert"], R, "only Stamper::revert stores into the counter", "%s" % [short(b.id) for b, _, _ in stores],
-              "the stamper's counter is written by %s" % sorted({b.id for b, _, _ in stores}))
-    rule_who_may_call(rep, prog, R, {ST + "revert"}, "Stamper::revert", {IW + "delete_all_documents": "delete-all reverts to the committed opstamp (documented)"})
+    callers = sorted({b.id for (b, bi, t) in prog.who_calls({x.id for x, _, _ in stores})}) if stores else []
+    rep.check(not stores, R, "opstamps are monotone: nothing stores into the stamper's counter", "fetch_add is the only write",
+              "the opstamp generator can be rewound: %s store(s) into the stamper's counter (called by %s). The delete queue keeps the deletes issued so far: a document added after a rewind gets an "
+              "opstamp smaller than theirs and is removed by deletes that were issued before it was added; commit opstamps go backwards" % (sorted({short(b.id) for b, _, _ in stores}), [short(c) for c in callers]),
+              site=site(stores[0][0], stores[0][1]) if stores else "")
     rule_who_may_call(rep, prog, R, {ST + "new"}, "Stamper::new", {IW + "new": "one stamper per writer, seeded with the committed opstamp"})
     nb = prog.body(IW + "new")
     if nb is not None:
